@@ -75,7 +75,7 @@ func RunBubble(t *testing.T, opt simrt.Options, caller func(), onLeak func(stack
 				leak = fmt.Sprint(r)
 			}
 		}()
-		synctest.Test(t, func(t *testing.T) { body() })
+		synctest.Test(t, func(t *testing.T) { simrt.RunBubbleInits(); body() })
 	}()
 	return res, leak
 }
@@ -103,6 +103,7 @@ func InBubble(t *testing.T, body func()) (exit string) {
 	}()
 	synctest.Test(t, func(t *testing.T) {
 		inBubble = true
+		simrt.RunBubbleInits()
 		knownG = bubbleGoroutines()
 		body()
 	})
